@@ -12,13 +12,13 @@ patch = os.path.abspath(sys.argv[1])
 props = sys.argv[2:] or sorted(registry.PROPERTIES)
 # the base is the committed HEAD of /repo (git archive), not its working tree, so that this tool can be used while
 # tools/eval_seeds.py has a seeded change applied to /repo
-head = subprocess.check_output(['git', '-C', '/repo', 'rev-parse', '--short', 'HEAD'], text=True).strip()
+head = os.environ.get('EVAL_BASE') or subprocess.check_output(['git', '-C', '/repo', 'rev-parse', '--short', 'HEAD'], text=True).strip()   # EVAL_BASE: evaluate a change made against an earlier commit of /repo
 base_dir = os.path.join(tempfile.gettempdir(), f'samlang-basefacts-{head}')
 if not os.path.exists(os.path.join(base_dir, 'DONE')):
     tmpb = tempfile.mkdtemp(prefix='samlang-base-')
     try:
         os.makedirs(os.path.join(tmpb, 'repo'))
-        subprocess.run(f'git -C /repo archive HEAD | tar -x -C {tmpb}/repo', shell=True, check=True)
+        subprocess.run(f'git -C /repo archive {head} | tar -x -C {tmpb}/repo', shell=True, check=True)
         shutil.rmtree(base_dir, ignore_errors=True)
         os.makedirs(base_dir)
         ok, log = selftest.extract_facts(os.path.join(tmpb, 'repo'), base_dir, None)
@@ -32,7 +32,7 @@ scratch = tempfile.mkdtemp(prefix='samlang-eval-')
 try:
     copy = os.path.join(scratch, 'repo')
     os.makedirs(copy)
-    subprocess.run(f'git -C /repo archive HEAD | tar -x -C {copy}', shell=True, check=True)
+    subprocess.run(f'git -C /repo archive {head} | tar -x -C {copy}', shell=True, check=True)
     r = subprocess.run(['patch', '-p1', '--no-backup-if-mismatch', '-s', '-f', '-i', patch], cwd=copy)
     if r.returncode != 0:
         sys.exit('patch does not apply')
